@@ -62,6 +62,22 @@ func SerialisableDoc(r *rand.Rand, tag string, maxNodes int) *sbom.Document {
 }
 
 
+// SizeConstants returns the integer constants (1 KiB .. 256 MiB) the instrumenter found in a package of
+// the tree under test ("storage", "formats", "reader", "writer").
+func SizeConstants(pkg string) []int64 {
+	b, err := os.ReadFile(os.Getenv("VERIF_WORK") + "/overlay/report.json")
+	if err != nil {
+		return nil
+	}
+	var rep struct {
+		C map[string][]int64 `json:"size_constants"`
+	}
+	if json.Unmarshal(b, &rep) != nil {
+		return nil
+	}
+	return rep.C[pkg]
+}
+
 var dictOnce struct {
 	done       bool
 	keys, dict []string
